@@ -520,21 +520,34 @@ func (s Schema) Validate() error {
 	return nil
 }
 
-// HasKey reports whether cols (in this order) is the primary key or the column list of a unique,
+// HasKey reports whether cols (in any order) is the primary key or the column list of a unique,
 // non-partial, expression free index of t.
 func (t *Table) HasKey(cols []string) bool {
-	if slices.Equal(t.PK, cols) {
+	same := func(key []string) bool {
+		if len(key) != len(cols) {
+			return false
+		}
+		a, b := slices.Clone(key), slices.Clone(cols)
+		slices.Sort(a)
+		slices.Sort(b)
+		return slices.Equal(a, b) // SQLite matches the parent key columns in any order
+	}
+	if len(t.PK) > 0 && same(t.PK) {
 		return true
 	}
 	for _, i := range t.Idx {
-		if !i.Unique || i.Where != "" || len(i.Parts) != len(cols) {
+		if !i.Unique || i.Where != "" {
 			continue
 		}
-		ok := true
-		for k, p := range i.Parts {
-			ok = ok && p.Col == cols[k]
+		var key []string
+		for _, p := range i.Parts {
+			if p.Col == "" {
+				key = nil
+				break
+			}
+			key = append(key, p.Col)
 		}
-		if ok {
+		if key != nil && same(key) {
 			return true
 		}
 	}
